@@ -1074,3 +1074,33 @@ VARIANTS['C15'] += [
     V('neutral: submitted token cut to a maximum length beyond the genuine length', [_csrf_cut], None),
     V('neutral: MAX_TOKEN_LENGTH computed exactly (nothing is cut to it)', [_tok_exact], None),
 ]
+
+FRF = 'dashlive/utils/fio/field_reader.py'
+VARIANTS['C16'] += [
+    V('zero-terminated string loop compares bytes (never ends on an empty read)',
+      [(FRF, "            while ord(d) != 0:", "            while d != b'\\0':")], 'R16.12', 'get'),
+    V('neutral: zero-terminated string loop tests the ordinal for truth',
+      [(FRF, "            while ord(d) != 0:", "            while ord(d):")], None),
+]
+
+MMF = 'dashlive/server/requesthandler/media_management.py'
+VARIANTS['C17'] += [
+    V('media file removed with a bulk DELETE (error rows, key links and the blob stay behind)',
+      [(MMF, "            models.db.session.delete(mf)\n            models.db.session.commit()\n            result[\"deleted\"] = mfid",
+        "            models.db.session.execute(models.db.delete(models.MediaFile).filter_by(pk=mf.pk))\n            models.db.session.commit()\n            result[\"deleted\"] = mfid")],
+      'R17.8', 'MediaInfo'),
+    V('neutral: expired tokens pruned through the query interface',
+      [(TOKF, "        stmt = delete(cls).where(cls.expires < now)\n        session.execute(stmt)\n", "        session.query(cls).filter(cls.expires < now).delete()\n")], None),
+]
+
+VREP = 'dashlive/mpeg/dash/validator/representation.py'
+_carry_validated = (VREP, "                self.id, self.init_segment.atoms is not None)\n        self.media_segments = []\n",
+                    "                self.id, self.init_segment.atoms is not None)\n        self._validated = prev._validated\n        self.media_segments = []\n")
+_guard_validated = (VREP, "        if ValidationFlag.REPRESENTATION in self.options.verify:\n            futures.add(super().validate())\n            futures.add(self.validate_self())\n",
+                    "        if ValidationFlag.REPRESENTATION in self.options.verify and not self._validated:\n            futures.add(super().validate())\n            futures.add(self.validate_self())\n")
+VARIANTS['C18'] += [
+    V('representation checks skipped once validated, and the flag survives a refresh', [_carry_validated, _guard_validated],
+      'R18.10', 'Representation.validate'),
+    V('neutral: the validated flag survives a refresh (nothing is guarded by it)', [_carry_validated], None),
+    V('neutral: representation checks skipped when this object was validated before (flag not carried)', [_guard_validated], None),
+]
